@@ -852,7 +852,35 @@ func propCases(prop string, g *Gen, n int) []*Case {
 		obs := names("report", "safedetails")
 		obs = append(obs, Obs{Name: "hop", Procs: knowing1, Sub: names("report", "safedetails")})
 		for i := 0; i < n; i++ {
-			add(&Case{R: g.Tree(1 + g.r.intn(5)), Obs: obs, Oracles: []string{"C12"}, Hops: [][][]string{knowing1, knowing2}})
+			r := g.Tree(1 + g.r.intn(5))
+			switch i % 20 {
+			case 3:
+				// the same kind of safe annotation several times in one chain, with the same key (URL, domain ...)
+				// and different safe payloads: every one is retained
+				url := g.urlOrEmpty()
+				r = g.Leaf(0)
+				if g.r.chance(40) {
+					r = &R{Op: "unimpl", S: []string{url, g.sS(), g.sU()}}
+				}
+				for k := 2 + g.r.intn(2); k > 0; k-- {
+					r = &R{Op: "issuelink", Kids: []*R{r}, S: []string{url, g.sS()}}
+					if g.r.chance(40) {
+						r = g.Wrapper(r, 1)
+					}
+				}
+			case 11:
+				// a formatted wrapper with several error arguments: each one is kept with its safe payload
+				f := []FP{{Kind: "lit", S: "while "}}
+				for k := 2 + g.r.intn(2); k > 0; k-- {
+					arg := &R{Op: "telemetry", Kids: []*R{{Op: "safedetails", Kids: []*R{g.Leaf(0)}, Fmt: []FP{{Kind: "lit", S: g.sS() + " "}, {Kind: "safestr", Verb: "s", S: g.sS()}}}}, Strs: []string{g.sS()}}
+					f = append(f, FP{Kind: "err", Verb: "v", R: arg}, FP{Kind: "lit", S: ", "})
+				}
+				r = &R{Op: []string{"wrapf", "newassertwrapped"}[g.r.intn(2)], Kids: []*R{g.Leaf(0)}, Fmt: f}
+				if _, isNil := specText(r); isNil {
+					r = &R{Op: "wrapf", Kids: []*R{{Op: "new", S: []string{g.sS()}}}, Fmt: f}
+				}
+			}
+			add(&Case{R: r, Obs: obs, Oracles: []string{"C12"}, Hops: [][][]string{knowing1, knowing2}})
 		}
 	case "C13":
 		for i := 0; i < n; i++ {
